@@ -285,6 +285,15 @@ func c09EnvRun(r *core.Rec) {
 	if !probe("empty environment") || !probe("second process in the same environment") {
 		return
 	}
+	// environment variables a Go program (or a library it links) may look at: the products are the same under each
+	baseEnv := env
+	for _, kv := range []string{"GODEBUG=cpu.ssse3=off", "GODEBUG=cpu.all=off", "GODEBUG=cpu.avx2=off,cpu.ssse3=off,gctrace=0", "GODEBUG=cpu.sse41=off", "GOMAXPROCS=1", "GOGC=off", "GOGC=1", "GOARCH=386", "GOAMD64=v1", "LANG=C", "LC_ALL=tr_TR.UTF-8", "GOTRACEBACK=none", "TZ=Pacific/Kiritimati"} {
+		env = append(append([]string{}, baseEnv...), kv)
+		if !probe("with " + kv) {
+			return
+		}
+	}
+	env = baseEnv
 	left := list()
 	r.Count("files_left_in_user_directories", len(left))
 	states := 2
@@ -717,7 +726,7 @@ func init() {
 		AltArch: true,
 		Level:   "model_checking",
 		Rule: "complete over values: for every dispatch path (SSSE3 assembly, non-SSSE3 assembly via the forced flag, portable Go byte kernels, the little-endian cast path, the []T kernels used by Matrix with the dispatch flag on and off, and the real non-amd64 dispatch (byte and []T kernels) in a GOARCH=386 worker) x every constant c (65536) x a buffer holding every word value (65536) x {Mul, MulAndAdd against a prior content}. " +
-			"Shapes: every even length 0..200 and {65534,65536,65538,131070,131072,131074,262178} x every (src,dst) alignment pair mod 16 (4x4 for the large ones) x 8 constants x placement against the upper / lower PROT_NONE guard page, and (lengths <= 200) as a window of a larger area whose capacity extends beyond the length, plus in==out aliasing; a history of 2 x CPUs + 3 calls outside the contract (buffers of different lengths) per length in {2,34,4096,65536} followed by valid calls; every ordered triple of lengths 32+t (t = 2..30) and every ordered pair of lengths 2..66 back to back in one goroutine with garbage collection off; short shapes also with a low-entropy input (zero except the first / last word and the last word of every 16-byte block). Environment: every constant x a 34-byte buffer on every path in a FRESH process whose HOME / XDG_* / TMPDIR / working directory are scratch directories, then again for every file that process left there x 11 mutations of it (truncated, emptied, garbled, grown, replaced by a directory, removed). " +
+			"Shapes: every even length 0..200 and {65534,65536,65538,131070,131072,131074,262178} x every (src,dst) alignment pair mod 16 (4x4 for the large ones) x 8 constants x placement against the upper / lower PROT_NONE guard page, and (lengths <= 200) as a window of a larger area whose capacity extends beyond the length, plus in==out aliasing; a history of 2 x CPUs + 3 calls outside the contract (buffers of different lengths) per length in {2,34,4096,65536} followed by valid calls; every ordered triple of lengths 32+t (t = 2..30) and every ordered pair of lengths 2..66 back to back in one goroutine with garbage collection off; short shapes also with a low-entropy input (zero except the first / last word and the last word of every 16-byte block). Environment: every constant x a 34-byte buffer on every path in a FRESH process whose HOME / XDG_* / TMPDIR / working directory are scratch directories, then again for every file that process left there x 11 mutations of it (truncated, emptied, garbled, grown, replaced by a directory, removed), and under 13 settings of environment variables a Go program may look at (GODEBUG cpu switches, GOMAXPROCS, GOGC, locale, ...). " +
 			"Oracle: out[i]==ref(c,in[i]) (xor prior); input unchanged; guard pages (faults become panics via SetPanicOnFault) and canary bytes detect any access outside the buffers. non-trivial = every executed case",
 		Assumptions: []string{"'no SSSE3' is simulated by forcing the dispatch flag (build-tagged hook)", "big-endian hosts are reached only through the exported portable byte kernels"},
 		NewCase:     func() interface{} { return &c09Case{} },
